@@ -18,6 +18,7 @@ BUILTIN_NAMES = ['len', 'print', 'ValueError', 'object', 'range', 'str', 'int', 
 MINIFIER_NAMES = ['A', 'B', 'C', '_A', '_B', 'D']
 DUNDER_NAMES = ['__doc__', '__name__', '__slots__', '__all__']
 SHORT_NAMES = ['x', 'y', 'i', 'self', 'cls']
+NON_ASCII_NAMES = ['gr\xf6\xdfe_wert', '\u0434\u0430\u043d\u043d\u044b\u0435']
 ATTR_NAMES = ['attr', 'value_name', 'append', 'real', 'A', '__doc__', 'alpha_value', 'x']
 MODULE_NAMES = ['os', 'sys', 'os.path', 'collections', 'collections.abc', 'typing', 'alpha_value', 'A', 'dataclasses']
 TAINT_NAMES = ['exec', 'eval', 'locals', 'globals', 'vars']
@@ -45,6 +46,9 @@ class Cfg(object):
                 pool = LONG_NAMES[:6] + BUILTIN_NAMES[:4] + MINIFIER_NAMES[:4] + ['x', 'self', '__doc__']
             else:
                 pool = LONG_NAMES + BUILTIN_NAMES + MINIFIER_NAMES + DUNDER_NAMES[:2] + SHORT_NAMES
+            if level >= (3, 0):
+                # identifiers outside ASCII are ordinary names on Python 3 (NFKC-stable spellings only)
+                pool = pool + NON_ASCII_NAMES
         self.pool = pool
 
 
